@@ -150,11 +150,17 @@ class C11(Spec):
             "patterns folded into one CRC per block (quick 20, thorough 64 in the compared script + 2048 more in parallel shards; "
             "VERIF_C11_SWEEP=full sweeps all 2^32); int64 boundary/lane/random; "
             "bytes/strings with lengths across 127/128, 16383/16384, 65535/65536/65537, 70000, 2^20 (thorough also 2^21) placed "
-            "behind and in front of other values, non-UTF-8 content; every case also runs the alias phase; random typed "
+            "behind and in front of other values, non-UTF-8 content; every case also runs the alias phase; conc lines: 8 goroutines with private "
+            "streams repeat their own sequences 10000-30000 times concurrently and must reproduce the sequential bytes and values "
+            "(quick 16, thorough 120 lines); thorough only, when >= 3 GiB are available: records of 2^28-1, 2^28, 2^28+1 bytes (5-byte "
+            "prefix boundary; the driver does not materialise them: expected prefix = spec leb128 of the length, lengths, and a "
+            "CRC-32 streamed over the payload formula, by C11_wire_bytes / C11_roundtrip_bytes); random typed "
             "sequences. distinct by script line; non-trivial = at least one value whose encoding has more than one byte")
     trusted_base = ["convert.String/convert.Bytes modelled as identity on the byte sequence (unsafe cast, not verified)",
                     "Go int (positions, lengths) modelled as unbounded naturals: streams shorter than 2^63 bytes"]
-    assumptions = ["aliasing (decoded values / input buffers sharing memory with the stream) is outside the value-semantics Lean "
+    assumptions = ["independence of streams used by different goroutines is outside the sequential Lean model; it is searched for by "
+                   "the conc phase (probabilistic: needs >= 2 CPUs) and judged by the oracle only (L3)",
+                   "aliasing (decoded values / input buffers sharing memory with the stream) is outside the value-semantics Lean "
                    "model; it is searched for by the harness alias phase and judged by the oracle only (L3)",
                    "len(data) < 2^31 for WriteBytes/WriteString (int32 length prefix)",
                    "raw stream.Read round trip only for buffers of length >= 1 (Read rejects empty buffers by contract)"]
@@ -172,6 +178,10 @@ class C11(Spec):
                             (block << 16) - ((1 << 32) if block >= 32768 else 0),
                             ((block << 16) | 0xFFFF) - ((1 << 32) if block >= 32768 else 0), block, impl[:40], want))
             return None
+        if script.startswith("conc "):
+            return self.oracle_conc(script, impl)
+        if script.startswith("giant "):
+            return self.oracle_giant(script, impl)
         toks = parse_script(script)
         parts = impl.split(" | ")
         if len(parts) != 4 or not parts[0].startswith("bytes=") or not parts[3].startswith("alias="):
@@ -228,8 +238,55 @@ class C11(Spec):
                     "tidy-memmove: decoded value held across Tidy()/Reset() and later writes)" % (idx, val, what))
         return None
 
+    def oracle_conc(self, script, impl):
+        """conc R | body || body ...: every body's sequential observation is judged like a seq line; the concurrent repetition
+        on private streams must not have changed any byte or value"""
+        bodies = [b.strip() for b in script.split("|", 1)[1].split("||") if b.strip()]
+        outs = impl.split(" || ")
+        if len(outs) != len(bodies) + 1 or not outs[-1].startswith("conc="):
+            return ("malformed", "unexpected harness output: " + impl[:200])
+        for b, o in zip(bodies, outs):
+            r = self.oracle("seq | " + b, o + " | alias=ok")
+            if r is not None:
+                return r
+        if outs[-1] != "conc=ok":
+            return ("concurrency", "%d goroutines, each encoding and decoding its own sequence on its OWN private stream at the "
+                    "same time: a goroutine saw bytes / values different from the sequential run of the same sequence "
+                    "(independent streams influence each other): %s" % (len(bodies), outs[-1][5:400]))
+        return None
+
+    def oracle_giant(self, script, impl):
+        """giant <B|S> <n> <seed>: 0xA5, a record of n >= 2^28 payload bytes, int16 -2"""
+        _, kind, n, seed = script.split()
+        n, seed = int(n), int(seed)
+        pre = leb128(n)
+        k = len(pre)
+        block = bytes((((j * 0x9E3779B1 + seed) & 0xFFFFFFFFFFFFFFFF) >> 16) & 0xFF for j in range(65536))
+        crc = 0
+        full, rem = divmod(n, 65536)
+        for _ in range(full):
+            crc = zlib.crc32(block, crc)
+        crc = "%08x" % zlib.crc32(block[:rem], crc)
+        f = dict(x.split("=", 1) for x in impl.replace(" | ", " ").split() if "=" in x)
+        total = 1 + k + n + 2
+        if "head" not in f or "len" not in f:
+            return ("wire-format", "writing a %d-byte %s failed: %s" % (n, "string" if kind == "S" else "byte slice", impl[:200]))
+        want_head = (pre + block[:5])[:5].hex()
+        if f["head"][:2 * k] != pre.hex() or int(f["len"]) != total:
+            return ("wire-format", "payload of %d bytes: stream starts (behind the first byte) with %s and has %s bytes; the documented "
+                    "format is the %d-byte LEB128 prefix %s followed by the payload, %d bytes in total" % (
+                        n, f["head"], f["len"], k, pre.hex(), total))
+        if f["head"] != want_head or f.get("crc") != crc:
+            return ("wire-format", "payload of %d bytes was not written unchanged behind the prefix (head %s crc %s, expected %s %s)" % (
+                n, f["head"], f.get("crc"), want_head, crc))
+        if " y:a5@1 " not in impl or f.get("rlen") != str(n) or f.get("rcrc") != crc or f.get("pos") != str(1 + k + n) \
+                or f.get("next") != "-2@%d" % total:
+            return ("round-trip", "payload of %d bytes read back as %s (expected rlen=%d rcrc=%s pos=%d next=-2@%d)" % (
+                n, impl.split(" | ", 1)[-1][:200], n, crc, 1 + k + n, total))
+        return None
+
     def nontrivial(self, script, impl):
-        if script.startswith("range32 "):
+        if script.startswith(("range32 ", "conc ", "giant ")):
             return True
         return any(t not in ("b", "y") for t, _ in parse_script(script))
 
